@@ -98,7 +98,13 @@ func (s *Schema) Example() (b []byte, err error) {
 		return nil, errors.NewDocumentError(s.file, errors.ErrEmptySchema)
 	}
 
-	return newExampleBuilder(s.inner.TypesList()).Build(s.inner.RootNode())
+	ex, err := newExampleBuilder(s.inner.TypesList()).Build(s.inner.RootNode())
+	if err != nil {
+		return nil, err
+	}
+	// The example of a literal is a piece of the schema's own text: the caller
+	// gets a copy, whatever is written into it doesn't reach the schema.
+	return append([]byte(nil), ex...), nil
 }
 
 func (s *Schema) AddType(name string, sc jschema.Schema) (err error) {
